@@ -3,7 +3,7 @@
 (* Trace specification for C17.  Each line is a PAIR of recorded runs from *)
 (* the identical start state with the same motion / text object, once      *)
 (* under the delete operator and once under the yank operator:             *)
-(*   {ev: "pair", motion, pre, dpost, dreg, dreg0, ypost, yreg, yreg0}     *)
+(*   {ev: "pair", motion, pre, dpost, dreg, dreg0, ypost, yreg, yreg0, app}*)
 (* pre = buffer before; Xpost = buffer after; Xreg = unnamed register      *)
 (* after; Xreg0 = unnamed register before (so "nothing happened" can be    *)
 (* told apart).  Reference (the statement, nothing more):                  *)
@@ -22,6 +22,7 @@ NL == 10
 Remove(s, b, e) == SubSeq(s, 1, b) \o SubSeq(s, e + 1, Len(s))
 Slice(s, b, e)  == SubSeq(s, b + 1, e)
 TInit == l = 1
+IsSuffixOf(x, r) == Len(x) <= Len(r) /\ SubSeq(r, Len(r) - Len(x) + 1, Len(r)) = x
 Pair ==
   /\ l <= Len(TraceLog) /\ Ev.ev = "pair"
   /\ Ev.ypost = Ev.pre                                                   \* YankNoEdit
@@ -30,7 +31,16 @@ Pair ==
      /\ \E b \in 0..Len(Ev.dpost) :
           /\ Ev.dpost = Remove(Ev.pre, b, b + k)                        \* RestUntouched
           /\ LET txt == Slice(Ev.pre, b, b + k) IN
-             IF k = 0 THEN (Ev.dreg = Ev.dreg0 /\ Ev.yreg = Ev.yreg0) \/ Ev.dreg = Ev.yreg
+             IF Ev.app
+             THEN \* the operator APPENDED to a named register (the two runs may find different texts in it: what counts is
+                  \* what each of them added; the library may separate / end linewise texts with a newline)
+                  IF k = 0 THEN \E n \in 0..Len(Ev.dreg) :
+                                   /\ Len(Ev.dreg) - n = Len(Ev.dreg0) /\ SubSeq(Ev.dreg, 1, Len(Ev.dreg0)) = Ev.dreg0
+                                   /\ Ev.yreg = Ev.yreg0 \o SubSeq(Ev.dreg, Len(Ev.dreg0) + 1, Len(Ev.dreg))
+                  ELSE \E sep \in {<<>>, <<NL>>}, fin \in {<<>>, <<NL>>} :
+                          /\ Ev.dreg = Ev.dreg0 \o sep \o txt \o fin
+                          /\ Ev.yreg = Ev.yreg0 \o sep \o txt \o fin
+             ELSE IF k = 0 THEN (Ev.dreg = Ev.dreg0 /\ Ev.yreg = Ev.yreg0) \/ Ev.dreg = Ev.yreg
              ELSE /\ Ev.dreg = Ev.yreg                                  \* SameRegion
                   /\ (Ev.dreg = txt \/ Ev.dreg = Append(txt, NL))
   /\ l' = l + 1
